@@ -289,7 +289,17 @@ impl MqttState {
 
         self.outgoing_rel.set(pubcomp.pkid as usize, false);
         self.inflight -= 1;
-        let packet = self.check_collision(pubcomp.pkid).map(|publish| {
+        // the pkid is free for a collided publish only if no newer publish took the slot
+        let collided = match self.outgoing_pub[pubcomp.pkid as usize] {
+            Some(_) => None,
+            None => self.check_collision(pubcomp.pkid),
+        };
+        let packet = collided.map(|publish| {
+            // the released publish goes on the wire: it has to be tracked like any other
+            // unacked publish (same as the puback path), else it's lost on reconnect
+            self.outgoing_pub[publish.pkid as usize] = Some(publish.clone());
+            self.inflight += 1;
+
             let event = Event::Outgoing(Outgoing::Publish(publish.pkid));
             self.events.push_back(event);
             self.collision_ping_count = 0;
